@@ -137,28 +137,46 @@ def run_par(exe_args, cases, workdir, tag, nproc=8, timeout=1200, env=None, stdi
             procs.append(subprocess.Popen(exe_args, stdin=open(cf), stdout=subprocess.PIPE, stderr=subprocess.STDOUT, text=True, errors="replace", env=e))
         else:
             procs.append(subprocess.Popen(exe_args + [cf], stdout=subprocess.PIPE, stderr=subprocess.STDOUT, text=True, errors="replace", env=e))
+    import time
+    deadline = time.time() + timeout
     outs = []
     for p in procs:
         try:
-            o, _ = p.communicate(timeout=timeout)
+            o, _ = p.communicate(timeout=max(1.0, deadline - time.time()))
         except subprocess.TimeoutExpired:
             p.kill(); o, _ = p.communicate(); o += "\n[timeout]"
         outs.append(o)
     return "\n".join(outs)
 
 
-def run_both_par(ctx, model_exe, impl_exe, cases, tag="cases", timeout=1200, fuel=20000, nproc=8):
-    """like conc_check.run_both, the implementation runs in parallel processes"""
+def run_both_par(ctx, model_exe, impl_exe, cases, tag="cases", timeout=420, fuel=20000, nproc=8):
+    """like conc_check.run_both, the implementation runs in parallel processes.  A case the implementation did
+    not finish (crash, or no termination before the deadline) has no entry in the implementation's logs."""
     o1 = run_par([model_exe, str(fuel)], cases, ctx.work, tag + "_m", nproc=nproc, timeout=timeout, stdin_mode=True)
     o2 = run_par([impl_exe], cases, ctx.work, tag + "_i", nproc=nproc, timeout=timeout)
     return 0, conc_check.parse_logs(o1), 0, conc_check.parse_logs(o2), o2
 
 
+def first_unfinished(cases, ilog, nproc=8):
+    """the first case of each chunk (same chunking as run_par) without output = where the implementation crashed or hung"""
+    nproc = max(1, min(nproc, vcheck.NCPU, (len(cases) + 19) // 20))
+    res = []
+    for k in range(nproc):
+        for c in cases[k::nproc]:
+            if c["id"] not in ilog:
+                res.append(c)
+                break
+    return res
+
+
 def split_model_uaf(mlog):
-    """model-only 'uaf' marker lines are removed before the comparison; returns their number"""
+    """model-only 'uaf' / 'lost' marker lines are removed before the comparison; returns the number of uaf markers
+    (the number of lost markers is left in mlog['lost'])"""
     n = sum(1 for l in mlog["lines"] if l.endswith(" ev uaf"))
-    if n:
-        mlog["lines"] = [l for l in mlog["lines"] if not l.endswith(" ev uaf")]
+    k = sum(1 for l in mlog["lines"] if l.endswith(" ev lost"))
+    if n or k:
+        mlog["lines"] = [l for l in mlog["lines"] if not (l.endswith(" ev uaf") or l.endswith(" ev lost"))]
+    mlog["lost"] = mlog.get("lost", 0) + k
     return n
 
 
